@@ -53,7 +53,8 @@ LEVEL_TEXT = (
     "Fejer monotonicity in M_alpha = |a|^2/tau - 2 alpha<Ca,b> + |b|^2/sigma and convergence of the iterates under the extra "
     "step condition (1-alpha) sigma |C|^2 < 2m. AcceleratedPGM, merely convex f: all iterates in the ball |x_k-x*| <= |x_0-x*| "
     "around every minimiser, every cluster point a minimiser, convergence of the whole sequence when the minimiser is unique "
-    "(finite dimension). The docstring parameter ranges are pinned strings checked against the source by a generated "
+    "(finite dimension). The x-update of the linear-system solver family (lhs_op x = compute_rhs(), transcribed) meets the "
+    "stationarity contract every ADMM theorem assumes of the x-solver. The docstring parameter ranges are pinned strings checked against the source by a generated "
     "obligation. Tie: fixed-point residuals at manufactured exact optima and every one "
     "of these one-step inequalities along trajectories of the real classes."
 )
@@ -181,6 +182,35 @@ def manufacture(rng, alg):
         recipe = {"alg": "admm", "cplx": True, "xshape": [n], "C": Cs, "g": gs,
                   "f": {"k": "sqloss", "s": sc, "A": None, "yshape": [n], "y": rl(y0)}, "rho": rho,
                   "alpha": _P(rng, [1.0, 1.5, 0.5]), "solver": "matrix", "x0": rl(xs)}
+        kkt = {"x": rl(xs), "z": [rl(z) for z in zs], "zold": [rl(z) for z in zs], "u": [rl(y / r) for y, r in zip(ys, rho)]}
+        return recipe, kkt, np.asarray(rl(xs))
+    if alg == "admm" and rng.integers(0, 6) == 0:
+        # complex data, MatrixSubproblemSolver on the WOODBURY path of MatrixATADSolver: every constraint diagonal (complex Diagonal,
+        # optionally a ScaledIdentity) and f.A a complex MatrixOperator with fewer rows than columns.
+        #   f = sc ||A x - b||^2, g_1 = w ||.||^2 on C_1 = diag(d): 2 sc A^H r + 2 w |d|^2 x* = 0 with r = A x* - b free
+        cd = lambda sh, b_, sc_: G.dy(rng, sh, b_, sc_) + 1j * G.dy(rng, sh, b_, sc_)  # noqa: E731
+        rl = lambda a_: G.realify(a_, True).tolist()  # noqa: E731
+        n = max(n, 3)
+        m = int(rng.integers(1, n))
+        A = cd((m, n), 1, 1.0)
+        d = np.asarray([_P(rng, [1.0, 1j, -1.0, 2.0, 1 + 1j, 1 - 1j, 0.5j]) for _ in range(n)], dtype=np.complex128)
+        w, sc = _P(rng, [0.5, 1.0, 2.0]), _P(rng, [0.5, 1.0, 2.0])
+        rres = cd((m,), 2, 1.5)
+        xs = -(sc / w) * (A.conj().T @ rres) / (np.abs(d) ** 2)
+        bdat = A @ xs - rres
+        Cs = [{"t": "diag", "d": d.real.tolist(), "di": d.imag.tolist()}]
+        gs = [{"k": "sql2", "w": w}]
+        zs, ys = [d * xs], [2.0 * w * d * xs]
+        if rng.integers(0, 2):
+            sv = _P(rng, [0.5, 2.0, -1.0])
+            Cs.append({"t": "sid", "s": sv})
+            gs.append({"k": "zero"})
+            zs.append(sv * xs)
+            ys.append(np.zeros_like(xs))
+        rho = [_P(rng, [0.5, 1.0, 2.0]) for _ in Cs]
+        recipe = {"alg": "admm", "cplx": True, "xshape": [n], "C": Cs, "g": gs,
+                  "f": {"k": "sqloss", "s": sc, "A": {"t": "mat", "M": A.real.tolist(), "Mi": A.imag.tolist()}, "yshape": [m], "y": rl(bdat)},
+                  "rho": rho, "alpha": _P(rng, [1.0, 1.5, 0.5]), "solver": "matrix", "x0": rl(xs), "_woodbury": True}
         kkt = {"x": rl(xs), "z": [rl(z) for z in zs], "zold": [rl(z) for z in zs], "u": [rl(y / r) for y, r in zip(ys, rho)]}
         return recipe, kkt, np.asarray(rl(xs))
     if alg == "admm" and rng.integers(0, 5) == 0:
@@ -447,6 +477,9 @@ def manufacture(rng, alg):
         else:
             f = half_loss(xs + y)
             lip, mstrong = 1.0, 1.0
+        if rng.integers(0, 3) == 0:
+            # the loss object is produced by the arithmetic of Loss objects (c * L, L * c, L / c): same function, rescaled `scale`
+            f["resc"] = _P(rng, [["/", 2.0], ["/", 3.0], ["l*", 2.0], ["r*", 0.5]])
         L0 = lip * _P(rng, [1.0, 1.5, 2.0])
         recipe = {"alg": alg, "cplx": False, "xshape": [n], "f": f, "g": g, "L0": L0, "x0": xs.tolist(),
                   "pol": {"kind": "base", "real": True}, "_lip": lip, "_m": mstrong, "_unique": unique}
@@ -818,7 +851,7 @@ def one(ctx, model, rng, alg, recipe, kkt, xs, traj, tag):
     if recipe.get("reuse") is not None:
         ctx.count("history:helper-object-reused")
     if alg == "admm" and recipe.get("cplx"):
-        ctx.count("admm.complex-mixed-matrix-solver")
+        ctx.count("admm.complex-matrix-solver:" + ("woodbury-path" if recipe.get("_woodbury") else "mixed-constraints"))
     if recipe.get("cplx"):
         ctx.count(f"complex-data:{alg}")
     if recipe.get("decoy_L0") is not None:
@@ -851,7 +884,7 @@ def correspond(ctx, model):
     for name, c in corpus_cases():
         one(ctx, model, rng, c["recipe"]["alg"], c["recipe"], c["kkt"], c["xstar"], True, "corpus")
         ctx.count(f"corpus:{name}")
-    n = ctx.n(14, 36)
+    n = ctx.n(12, 36)
     import gc
 
     import jax
@@ -886,6 +919,30 @@ def search(ctx, model, why):
     run from a perturbed start must not move away from the optimum of a strongly convex instance"""
     common.setup_scico()
     rng = np.random.Generator(np.random.PCG64(ctx.seed + 104729))
+    if why is not None:
+        # aim at the classes whose pinned statement lists / defaults differ from the working tree: manufactured problems of exactly
+        # those classes, KKT fixed point + monitored trajectory, oracles evaluated on the implementation alone
+        import c11
+
+        rows = steps_translate.diff_rows()
+        ctx.obligation_notes.append("stale table rows: " + ", ".join(rows[:20]))
+        probe = c11._Probe(ctx)
+        for alg, kinds in c11.panel_targets(rows):
+            made = 0
+            for it in range(400):
+                if made >= 10 or probe.failing is not None:
+                    break
+                m = manufacture(rng, alg)
+                if m is None:
+                    continue
+                if kinds is not None and m[0].get("solver") not in kinds:
+                    continue
+                made += 1
+                one(probe, model, rng, alg, m[0], m[1], m[2], True, "panel")
+                ctx.count(f"targeted-panel:{alg}")
+        if probe.failing is not None:
+            probe.failing["stale_table_rows"] = rows[:12]
+            return probe.failing
     ignore = ("mem", "fpr", "t", "L")
     for it in range(ctx.n(4, 12)):
         for alg in G.ALGS:
